@@ -59,7 +59,7 @@ EXPECT_CHANGED = {"clean.md": False, "linefix.md": True, "tokfix.md": True, "bot
 
 
 def multi_file(ctx, thorough):
-    """Sets of <= 3 files x {scan, scan-stdin, scan -l, fix} x 2 schemes."""
+    """Sets of <= 3 files x {scan, scan-stdin, scan -l, fix} x 2 schemes (x 3 ways of selecting the scheme for fix / scan)."""
     names = list(POOL5)
     sets = [c for k in (1, 2, 3) for c in itertools.combinations(names, k)]
     if not thorough:
@@ -67,8 +67,10 @@ def multi_file(ctx, thorough):
     fails, evals, samples = [], 0, []
     with implib.workspace() as ws:
         for fs in sets:
-            for scheme in ("default", "minimal"):
-                for mode in ("scan", "scan-stdin", "list", "fix"):
+            # how the scheme reaches the run: command line only, configuration only (--set), or both and disagreeing (the documented
+            # precedence: the command line wins); the selector must not change which result the run ends with
+            for scheme, how in [(s_, h_) for s_ in ("default", "minimal") for h_ in ("cli", "set", "cli-over-set")]:
+                for mode in (("scan", "scan-stdin", "list", "fix") if how == "cli" else ("fix", "scan")):
                     d = os.path.join(ws, "m")
                     import shutil
                     shutil.rmtree(d, ignore_errors=True)
@@ -76,7 +78,10 @@ def multi_file(ctx, thorough):
                     for n in fs:
                         implib.write(os.path.join(d, n), POOL5[n])
                     before = implib.tree_snapshot(d)
-                    argv = ["--return-code-scheme", scheme]
+                    other = "minimal" if scheme == "default" else "default"
+                    argv = {"cli": ["--return-code-scheme", scheme],
+                            "set": ["--set", "mode.return_code_scheme=" + scheme],
+                            "cli-over-set": ["--set", "mode.return_code_scheme=" + other, "--return-code-scheme", scheme]}[how]
                     stdin = None
                     if mode == "scan":
                         argv += ["scan"] + list(fs)
@@ -91,6 +96,8 @@ def multi_file(ctx, thorough):
                     leaked = [os.path.basename(x) for x in F.record_ops.temps_left]
                     evals += 1
                     case = {"files": list(fs), "mode": mode, "scheme": scheme}
+                    if how != "cli":
+                        case["scheme_given_by"] = how
                     if leaked:
                         fails.append((case, "temp-file-left", leaked))
                     if mode != "fix":
